@@ -100,7 +100,7 @@ theorem nodupB_cons (x : Nat) (xs : List Nat) (h : nodupB (x :: xs) = true) : x 
 theorem apiStep_rel (cfg : Cfg) (hpf : ParentsFirst cfg) (st : St) (ss : SSt) (o : Op) (hrel : LevelsRel cfg st ss)
     (hfresh : (o.kind = .inc ∨ o.kind = .req) → ∀ k, (st.at k).memo.lookup o.r = none) :
     LevelsRel cfg (apiStep cfg st o).1 (sStep cfg ss ⟨o, (apiStep cfg st o).2⟩) ∧
-    (o.kind = .req → (apiStep cfg st o).2 = some false → fullCharged ss (chain cfg o.q) o.t o.h = true) := by
+    (o.kind = .req → (apiStep cfg st o).2 = some (sInc ss (chain cfg o.q) o.t o.h).2) := by
   obtain ⟨kind, q, r, t, h⟩ := o
   have hv := chain_valid cfg q
   have hnd := chain_nodup cfg hpf q
@@ -108,7 +108,7 @@ theorem apiStep_rel (cfg : Cfg) (hpf : ParentsFirst cfg) (st : St) (ss : SSt) (o
   | inc =>
     refine ⟨?_, fun hk => by simp at hk⟩
     simp only [apiStep, sStep]
-    exact incChain_rel cfg r t h _ st ss hv hnd hrel (fun p _ => hfresh (Or.inl rfl) _)
+    exact (incChain_rel cfg r t h _ st ss hv hnd hrel (fun p _ => hfresh (Or.inl rfl) _)).1
   | allowed =>
     refine ⟨?_, fun hk => by simp at hk⟩
     have := allowedChain_rel cfg r h _ st ss hv hrel
@@ -121,16 +121,16 @@ theorem apiStep_rel (cfg : Cfg) (hpf : ParentsFirst cfg) (st : St) (ss : SSt) (o
     simp only [apiStep, sStep]
     exact decChain_rel cfg r h _ st ss hv hrel
   | req =>
-    have hinc := incChain_rel cfg r t h _ st ss hv hnd hrel (fun p _ => hfresh (Or.inr rfl) _)
+    have hinc := (incChain_rel cfg r t h _ st ss hv hnd hrel (fun p _ => hfresh (Or.inr rfl) _)).1
     have hall := allowedChain_rel cfg r h _ _ _ hv hinc
+    have hverd := limiter_verdict cfg st ss _ r t h hv hnd hrel (fun p _ => hfresh (Or.inr rfl) _)
     simp only [apiStep, limiter]
     constructor
-    · cases hb : (allowedChain (incChain st (chain cfg q) r t h) (chain cfg q) r h).2 with
+    · cases hb : (allowedChain (incChain st (chain cfg q) r t h).1 (chain cfg q) r h).2 with
       | true => simpa [sStep, hb] using hall
       | false => simpa [sStep, hb] using hall
-    · intro _ hb
-      simp only [Option.some.injEq] at hb
-      exact limiter_false_full cfg st ss _ r t h hv hnd hrel (fun p _ => hfresh (Or.inr rfl) _) hb
+    · intro _
+      rw [hverd]
 
 theorem apiStep_fresh (cfg : Cfg) (st : St) (o : Op) (r' : Rid)
     (hne : (o.kind = .inc ∨ o.kind = .req) → r' ≠ o.r) (hst : ∀ k, (st.at k).memo.lookup r' = none) :
@@ -186,23 +186,18 @@ theorem sRun_cons (cfg : Cfg) (ss : SSt) (o : Obs) (h : History) :
 
 theorem api_rel (cfg : Cfg) (hpf : ParentsFirst cfg) : ∀ (ops : List Op) (st : St) (ss : SSt),
     LevelsRel cfg st ss → (∀ r ∈ opArr ops, ∀ k, (st.at k).memo.lookup r = none) → nodupB (opArr ops) = true →
-    LevelsRel cfg (apiFinal cfg st ops) (sRun cfg ss (observe cfg st ops)) ∧
-    exactFrom cfg fullCharged ss (observe cfg st ops) = true := by
+    LevelsRel cfg (apiFinal cfg st ops) (sRun cfg ss (observe cfg st ops)) := by
   intro ops
   induction ops with
-  | nil => intro st ss hrel _ _; exact ⟨hrel, rfl⟩
+  | nil => intro st ss hrel _ _; exact hrel
   | cons o os ih =>
     intro st ss hrel hfresh hnd
     obtain ⟨hf', hnd', hfo⟩ := fresh_step cfg st o os hfresh hnd
-    obtain ⟨hrel', hfull⟩ := apiStep_rel cfg hpf st ss o hrel hfo
-    obtain ⟨ih1, ih2⟩ := ih _ _ hrel' hf' hnd'
-    refine ⟨by simpa [observe, apiFinal, sRun_cons] using ih1, ?_⟩
-    simp only [observe, exactFrom, ih2, Bool.and_true]
-    by_cases hc : (o.kind == Kind.req && (apiStep cfg st o).2 == some false) = true
-    · simp only [hc, if_true]
-      simp only [Bool.and_eq_true, beq_iff_eq] at hc
-      exact hfull hc.1 hc.2
-    · simp [hc]
+    obtain ⟨hrel', _⟩ := apiStep_rel cfg hpf st ss o hrel hfo
+    simpa [observe, apiFinal, sRun_cons] using ih _ _ hrel' hf' hnd'
+
+theorem init_fresh (ops : List Op) : ∀ r ∈ opArr ops, ∀ k, (St.init.at k).memo.lookup r = none := by
+  intro r _ k; rfl
 
 /-! ### Bound and spacing as the judge checks them -/
 
@@ -244,7 +239,7 @@ theorem SpAll.set {cfg : Cfg} {T : Nat} {ss : SSt} (h : SpAll cfg T ss) (k : Key
 
 theorem sInc_spaced (cfg : Cfg) (hwin : ∀ (i : Nat) (c : QuotaCfg), cfg.quotas[i]? = some c → c.win % nsPerSec = 0) (t : Nat) (h : Hdrs) :
     ∀ (ch : List (QId × QuotaCfg)) (ss : SSt), (∀ p ∈ ch, validPair cfg p) → SpAll cfg t ss →
-      SpAll cfg t (sInc ss ch t h) := by
+      SpAll cfg t (sInc ss ch t h).1 := by
   intro ch
   induction ch with
   | nil => intro ss _ hs; exact hs
@@ -252,11 +247,15 @@ theorem sInc_spaced (cfg : Cfg) (hwin : ∀ (i : Nat) (c : QuotaCfg), cfg.quotas
     intro ss hv hs
     obtain ⟨a, c⟩ := ac
     have hac : cfg.quotas[a]? = some c := hv (a, c) (by simp)
+    have hup := ih (KMap.set ss (a, groupOf c h) (chargeWin c.win t (ss.at (a, groupOf c h))))
+      (fun p hp => hv p (by simp [hp]))
+      (hs.set (a, groupOf c h) c hac _ (SpOk.charge (hwin a c hac) (hs (a, groupOf c h) c hac)))
     rw [sInc_cons]
     split
     · exact hs
-    · apply ih _ (fun p hp => hv p (by simp [hp]))
-      exact hs.set (a, groupOf c h) c hac _ (SpOk.charge (hwin a c hac) (hs (a, groupOf c h) c hac))
+    · split
+      · exact hup
+      · exact hup.set (a, groupOf c h) c hac _ (hup (a, groupOf c h) c hac).refundOk
 
 theorem sAdmit_spaced (cfg : Cfg) (T : Nat) (h : Hdrs) :
     ∀ (ch : List (QId × QuotaCfg)) (ss : SSt), (∀ p ∈ ch, validPair cfg p) → SpAll cfg T ss →
